@@ -637,6 +637,19 @@ func depIsError(ctx *dsl.VarFilterContext) bool {
 	return types.Implements(ctx.Type, ctx.GetInterface("error"))
 }
 
+func isRing(ctx *dsl.VarFilterContext) bool {
+	typ := ctx.GetType("container/ring.Ring")
+	return types.Identical(ctx.Type, typ) || types.Identical(ctx.Type, types.NewPointer(typ))
+}
+
+func ringIsThreeInts(ctx *dsl.VarFilterContext) bool {
+	s := types.AsStruct(ctx.GetType("container/ring.Ring").Underlying())
+	if s == nil {
+		return false
+	}
+	return s.NumFields() == 3 && s.Field(0).Type().String() == "int"
+}
+
 func midIsSink(ctx *dsl.VarFilterContext) bool {
 	return types.Implements(ctx.Type, ctx.GetInterface("` + memMidPath + `.Sink"))
 }
@@ -672,6 +685,10 @@ func c08dep(m dsl.Matcher) {
 	m.Match("mvuse7($x)").Where(m["x"].Filter(depSliceOfLevel)).Report("$x is a []dep.Level")
 	m.Match("mvuse8($x)").Where(m["x"].Filter(depIsError)).Report("$x is an error (custom filter)")
 	m.Match("mvuse9($x)").Where(m["x"].Type.Implements("error")).Report("$x is an error (Type.Implements)")
+	m.Match("mvring1($x)").Where(m["x"].Filter(isRing)).Report("$x is a ring")
+	m.Match("mvring1($x)").Report("$x is not a ring")
+	m.Match("mvring2($x)").Where(m["x"].Filter(ringIsThreeInts)).Report("a ring is three ints here (seen at $x)")
+	m.Match("mvring2($x)").Report("a ring is what the standard library says (seen at $x)")
 	m.Match("miduse1($x)").Where(m["x"].Filter(midIsSink)).Report("$x is a mid.Sink")
 	m.Match("miduse2($x)").Where(m["x"].Filter(midWrapHolds)).Report("mid.Wrap holds a $x")
 	m.Match("mvdo($x)").Where(m["x"].Text.Matches("^v[A-Z]") && !m["x"].Text.Matches("Int$")).Do(depDescribe)
